@@ -25,7 +25,7 @@ PRELUDE = ('@use "sass:list";\n@use "sass:map";\n@use "sass:string";\n'
 # value trees
 #   ('null',) ('bool', b) ('num', Fraction, unit) ('str', text, quoted)
 #   ('list', [v…], sep, bracketed)   sep in comma|space|slash|undecided
-#   ('map', [(k, v)…])  ('arglist', [v…])
+#   ('map', [(k, v)…])  ('arglist', [v…][, sep[, 'br']])   sep (default comma) = separator of the list spread into it
 #   ('emptymap',) is written `map-remove((k: 1), k)` in source and is ('map', []) for the model
 # ----------------------------------------------------------------------------------------------
 NULL = ('null',)
@@ -108,7 +108,29 @@ def src(v, top=False):
             return 'map-remove((k: 1), k)'
         return '(' + ', '.join(src(a) + ': ' + src(b) for a, b in v[1]) + ')'
     if k == 'arglist':
-        return 'a(' + ', '.join(src(e) for e in v[1]) + ')'
+        return arglist_src(v, src)
+    raise ValueError(v)
+
+
+def asep(v):
+    return v[2] if len(v) > 2 else 'comma'
+
+
+def arglist_src(v, sub):
+    """`a(1, 2)` is a comma argument list; `a((1 2)...)`, `a([1 2]...)`, `a(list.slash(1, 2)...)` carry the
+    separator of the list spread into them (an empty or one-element spread gives comma)"""
+    inner = [sub(e) for e in v[1]]
+    if any(x is None for x in inner):
+        return None
+    sep = asep(v)
+    if sep == 'comma':
+        return 'a(' + ', '.join(inner) + ')'
+    if len(inner) < 2:
+        raise ValueError(v)
+    if sep == 'space':
+        return ('a([' + ' '.join(inner) + ']...)') if (len(v) > 3 and v[3] == 'br') else ('a((' + ' '.join(inner) + ')...)')
+    if sep == 'slash':
+        return 'a(list.slash(' + ', '.join(inner) + ')...)'
     raise ValueError(v)
 
 
@@ -132,7 +154,7 @@ def enc(v):
     if k == 'map':
         return f"m {len(v[1])}" + ''.join(' ' + enc(a) + ' ' + enc(b) for a, b in v[1])
     if k == 'arglist':
-        return f"a comma {len(v[1])}" + ''.join(' ' + enc(e) for e in v[1]) + ' 0'
+        return f"a {asep(v)} {len(v[1])}" + ''.join(' ' + enc(e) for e in v[1]) + ' 0'
     raise ValueError(v)
 
 
@@ -167,6 +189,7 @@ def dec(toks, i=0):
             ps.append((a, b))
         return ('map', ps), i
     if t == 'a':
+        i0 = i
         n = int(toks[i + 2])
         i += 3
         es = []
@@ -178,7 +201,7 @@ def dec(toks, i=0):
         for _ in range(j):
             _, i = dec(toks, i)
             _, i = dec(toks, i)
-        return ('arglist', es), i
+        return ('arglist', es, toks[i0 + 1]), i
     raise ValueError(toks[i:i + 4])
 
 
@@ -279,7 +302,7 @@ def show(v):
     if k == 'list':
         return show_list(v[1], v[2], v[3])
     if k == 'arglist':
-        return show_list(v[1], 'comma', False)
+        return show_list(v[1], asep(v), False)
     if k == 'map':
         def el(x):
             t = show(x)
@@ -305,7 +328,9 @@ def pins(v):
     """what type-of / list-separator / is-bracketed / length answer for a value (value/mod.rs:435–450)"""
     if v[0] == 'list':
         sep = 'space' if v[2] == 'undecided' else v[2]
-    elif v[0] in ('map', 'arglist'):
+    elif v[0] == 'arglist':
+        sep = 'space' if asep(v) == 'undecided' else asep(v)
+    elif v[0] == 'map':
         sep = 'comma'
     else:
         sep = 'space'
@@ -509,9 +534,9 @@ def obs_value(o):
             return v
         return ('map', []) if n == 0 else None
     if t == 'arglist':
-        if v[0] == 'list' and v[2] == 'comma' and not v[3]:
-            return ('arglist', v[1])
-        return ('arglist', []) if n == 0 else None
+        if v[0] == 'list' and v[2] == s and not v[3] and len(v[1]) == n:
+            return ('arglist', v[1], s)
+        return ('arglist', [], s) if n == 0 else None
     if t == 'list':
         if n == 0:
             if v[0] == 'list' and not v[1] and v[3] == b:
@@ -579,6 +604,11 @@ ASCII = 'abcXYZ 1,-.'
 WIDE = ['é', 'é', '中', '\U0001F600', 'É']
 
 
+# values that are easily mistaken for "nothing there"
+FALSY = [NULL, NULL, FALSE, ('list', [], 'undecided', False), ('map', []), ('num', Fraction(0), ''), ('str', '', True)]
+ABC = [('str', 'a', False), ('str', 'b', False), ('str', 'c', False)]
+
+
 class Gen:
     def __init__(self, rng):
         self.r = rng
@@ -605,8 +635,16 @@ class Gen:
         if x < 0.95:
             return self.map(depth - 1, maxlen=2)
         if arglists:
-            return ('arglist', [self.value(depth - 1, False) for _ in range(r.randint(0, 3))])
+            return self.arglist(depth - 1, 3)
         return self.atom()
+
+    def arglist(self, depth=1, maxlen=4):
+        r = self.r
+        es = [self.value(depth, False) for _ in range(r.randint(0, maxlen))]
+        if len(es) >= 2 and r.random() < 0.45:
+            sep = r.choice(['space', 'space', 'slash'])
+            return ('arglist', es, sep, 'br') if (sep == 'space' and r.random() < 0.4) else ('arglist', es, sep)
+        return ('arglist', es, 'comma')
 
     def list(self, depth=2, maxlen=6, arglists=True):
         r = self.r
@@ -633,7 +671,7 @@ class Gen:
             return self.atom()
         if x < 0.90:
             return self.map(1, maxlen=3)
-        return ('arglist', [self.value(1, False) for _ in range(self.r.randint(0, 4))])
+        return self.arglist(1, 4)
 
     def key(self):
         r = self.r
@@ -653,6 +691,8 @@ class Gen:
             seen.add(kid)
             if depth > 0 and r.random() < 0.45:
                 v = self.map(depth - 1, maxlen, allow_empty=r.random() < 0.2)
+            elif r.random() < 0.25:
+                v = r.choice(FALSY)
             else:
                 v = self.value(min(depth, 1), False)
             ps.append((k, v))
@@ -785,9 +825,7 @@ def gen_call(g, f):
             if v[0] == 'str' and r.random() < 0.3:
                 v = sanitize_str(('str', v[1], not v[2]))
             if v[0] == 'arglist':
-                v = lst(v[1], 'comma') if v[1] else lst([], 'undecided')
-                if len(v[1]) == 1:
-                    v = lst(v[1], 'comma')
+                v = lst(v[1], asep(v)) if v[1] else lst([], 'undecided')
         else:
             v = g.value(1, False)
         args = [l, v]
@@ -889,7 +927,8 @@ def small_operand(g):
     if k == 11:
         return ('map', [(ustr('k'), a())])
     if k == 12:
-        return ('arglist', [a() for _ in range(r.randint(0, 2))])
+        n = r.randint(0, 3)
+        return ('arglist', [a() for _ in range(n)], r.choice(['comma', 'space', 'slash']) if n >= 2 else 'comma')
     if k == 13:
         return lst([a(), a(), a()], r.choice(['space', 'comma']))
     if k == 14:
@@ -987,6 +1026,53 @@ def overlap_map(g, m, depth=0):
     return ('map', ps)
 
 
+def abc_map(g, depth=2):
+    """maps over the tiny key alphabet a/b/c at EVERY level (the same names recur at different levels), map-valued and
+    scalar entries mixed, falsy values included"""
+    r = g.r
+    ps = []
+    for k in ABC:
+        if r.random() < 0.65:
+            v = None
+            if depth > 0 and r.random() < 0.55:
+                v = abc_map(g, depth - 1)
+                if not v[1]:
+                    v = None
+            if v is None:
+                v = r.choice([num(1), num(2), ustr('x'), ustr('y'), NULL, FALSE, lst([], 'undecided'), qstr(''), num(0)])
+            ps.append((k, v))
+    return ('map', ps)
+
+
+def abc_path(g, lo, hi):
+    return [g.r.choice(ABC) for _ in range(g.r.randint(lo, hi))]
+
+
+def gen_abc(g):
+    r = g.r
+    f = r.choice(['map-set', 'map-set', 'map-set', 'map-get', 'map-has-key', 'map-merge', 'deep-remove', 'deep-merge', 'map-remove',
+                  'map-keys', 'map-values'])
+    m = abc_map(g, r.choice([1, 2, 2, 3]))
+    if f == 'map-set':
+        return (f, [m] + abc_path(g, 2, 4) + [r.choice([ustr('d'), num(9), NULL, abc_map(g, 0)])])
+    if f in ('map-get', 'map-has-key'):
+        return (f, [m] + abc_path(g, 1, 4))
+    if f == 'map-merge':
+        return (f, [m] + abc_path(g, 1, 3) + [abc_map(g, 1)])
+    if f == 'deep-remove':
+        return (f, [m] + abc_path(g, 1, 4))
+    if f == 'deep-merge':
+        return (f, [m, abc_map(g, r.choice([1, 2, 3]))])
+    if f == 'map-remove':
+        return (f, [m] + abc_path(g, 0, 2))
+    return (f, [m])
+
+
+def prefix_related(p, ks):
+    n = min(len(p), len(ks))
+    return [key_id(x) for x in p[:n]] == [key_id(x) for x in ks[:n]]
+
+
 FUNCS = list(MODULE)
 
 # minimised interesting cases; run first on every run
@@ -1027,6 +1113,17 @@ CORPUS = [
     ('zip', [('map', [(ustr('a'), num(1)), (ustr('b'), num(2))]), lst([num(1), num(2), num(3)])]),
     ('list-separator', [('map', [])]),
     ('list-separator', [('arglist', [])]),
+    # e36bfd5: an argument list keeps the separator of the list spread into it
+    ('list-separator', [('arglist', [num(1), num(2)], 'space')]),
+    ('list-separator', [('arglist', [num(1), num(2)], 'space', 'br')]),
+    ('list-separator', [('arglist', [num(1), num(2)], 'slash')]),
+    ('append', [('arglist', [num(1), num(2)], 'space'), ustr('b')]),
+    ('join', [('arglist', [num(1), num(2)], 'slash'), lst([num(3), num(4)], 'comma')]),
+    ('join', [ustr('x'), ('arglist', [num(1), num(2)], 'space')]),
+    ('set-nth', [('arglist', [num(1), num(2)], 'space'), num(1), ustr('z')]),
+    ('index', [lst([('arglist', [num(1), num(2)], 'space'), ustr('c')], 'comma'), lst([num(1), num(2)])]),
+    ('index', [lst([('arglist', [num(1), num(2)], 'space'), ustr('c')], 'comma'), lst([num(1), num(2)], 'comma')]),
+    ('zip', [('arglist', [num(1), num(2)], 'slash'), lst([num(3), num(4)])]),
     ('index', [('map', [(ustr('a'), num(1))]), lst([ustr('a'), num(1)])]),
     ('set-nth', [('map', [(ustr('a'), num(1)), (ustr('b'), num(2))]), num(-1), ustr('z')]),
     ('set-nth', [ustr('a'), num(1), ustr('z')]),
@@ -1090,6 +1187,15 @@ CORPUS = [
     ('str-slice', [qstr('\U0001F46Dab'), num(1), num(-2)]),
     ('deep-merge', [('map', [(ustr('a'), ('map', [(ustr('b'), ('map', [(ustr('c'), num(1)), (ustr('d'), num(2))]))]))]),
                     ('map', [(ustr('a'), ('map', [(ustr('b'), ('map', [(ustr('d'), num(3))]))]))])]),
+    # seeded C09-r2m2: a present key whose value is null; seeded C14-r2m1: a missing path key must start a FRESH map
+    ('map-has-key', [('map', [(ustr('a'), NULL)]), ustr('a')]),
+    ('map-has-key', [('map', [(ustr('a'), ('map', [(ustr('b'), NULL)]))]), ustr('a'), ustr('b')]),
+    ('map-get', [('map', [(ustr('a'), NULL)]), ustr('a')]),
+    ('map-keys', [('map', [(ustr('a'), NULL), (ustr('b'), FALSE)])]),
+    ('map-merge', [('map', [(ustr('a'), NULL)]), ('map', [(ustr('b'), NULL)])]),
+    ('map-set', [('map', [(ustr('b'), ('map', [(ustr('x'), ustr('y'))]))]), ustr('a'), ustr('b'), ustr('c'), ustr('d')]),
+    ('map-set', [('map', [(ustr('a'), num(1)), (ustr('b'), ('map', [(ustr('c'), num(2))]))]), ustr('a'), ustr('b'), ustr('d'), num(3)]),
+    ('map-merge', [('map', [(ustr('b'), ('map', [(ustr('x'), ustr('y'))]))]), ustr('a'), ustr('b'), ('map', [(ustr('c'), ustr('d'))])]),
     # the first argument is checked before a later one is found missing
     ('deep-merge', [ustr('foo')]),
     ('deep-merge', [('map', [(ustr('a'), num(1))])]),
@@ -1251,8 +1357,10 @@ def literal(v):
             parts.append(la + ': ' + lb)
         return '(' + ', '.join(parts) + ')'
     if k == 'arglist':
-        inner = [literal(e) for e in v[1]]
-        return None if any(x is None for x in inner) else 'a(' + ', '.join(inner) + ')'
+        try:
+            return arglist_src(v, literal)
+        except ValueError:
+            return None
     if k == 'list':
         es, sep, br = v[1], v[2], v[3]
         inner = [literal(e) for e in es]
@@ -1529,6 +1637,8 @@ def simple_map(g, depth=2):
             continue
         seen.add(key_id(k))
         v = simple_map(g, depth - 1) if depth > 0 and r.random() < 0.4 else simple_value(g, 1)
+        if r.random() < 0.2:
+            v = r.choice([NULL, NULL, FALSE, num(0), qstr('')])
         if v == ('map', []):
             v = num(7)
         ps.append((k, v))
@@ -1543,7 +1653,8 @@ def listish_for_law(g):
         return g.atom()
     if x < 0.9:
         return simple_map(g, 1)
-    return ('arglist', [simple_value(g, 0) for _ in range(g.r.randint(0, 3))])
+    n = g.r.randint(0, 3)
+    return ('arglist', [simple_value(g, 0) for _ in range(n)], g.r.choice(['comma', 'space', 'slash']) if n >= 2 else 'comma')
 
 
 def gen_law(g):
@@ -1551,7 +1662,8 @@ def gen_law(g):
     r = g.r
     name = r.choice(['length_append', 'length_append', 'nth_set_nth', 'nth_neg', 'length_join', 'join_sep', 'zip_length',
                      'slice_concat', 'length_slice', 'slice_neg', 'slice_neg', 'length_insert', 'index_slice', 'unquote_quote',
-                     'eq_literal', 'eq_literal', 'eq_literal',
+                     'eq_literal', 'eq_literal', 'eq_literal', 'has_key_index', 'has_key_index', 'get_set_path',
+                     'set_other_path', 'set_other_path', 'set_other_path',
                      'get_merge', 'keys_merge', 'get_set', 'remove_get', 'deep_merge_get'])
     S = src
     if name == 'length_append':
@@ -1651,6 +1763,32 @@ def gen_law(g):
         s = g.string()
         ex = [S(s), f"unquote(quote({S(s)}))", f"quote(unquote({S(s)}))"]
         return name, ex, lambda vs: "blt law unquote_quote 3 " + " ".join(map(enc, vs)), None
+    if name == 'has_key_index':
+        m = abc_map(g, 1) if r.random() < 0.4 else simple_map(g)
+        k = r.choice([kk for kk, _ in m[1]] + [g.key_atom()] + ABC[:1])
+        ex = [f"map-has-key({S(m)}, {S(k)})", f"index(map-keys({S(m)}), {S(k)})"]
+        return name, ex, lambda vs: "blt law has_key_index 2 " + " ".join(map(enc, vs)), None
+    if name in ('get_set_path', 'set_other_path'):
+        m = abc_map(g, r.choice([1, 2, 2, 3]))
+        ks = abc_path(g, 2, 4) if r.random() < 0.85 else abc_path(g, 1, 1)
+        v = r.choice([ustr('d'), num(9), qstr('v'), lst([num(1), num(2)])])
+        path = ", ".join(S(x) for x in ks)
+        setx = f"map.set({S(m)}, {path}, {S(v)})"
+        if name == 'get_set_path':
+            ex = [S(v), f"map-get({setx}, {path})"]
+            return 'get_set', ex, lambda vs: "blt law get_set 2 " + " ".join(map(enc, vs)), None
+        for _ in range(20):
+            if r.random() < 0.5:
+                pth = ks[:-1] + [r.choice(ABC)]
+            else:
+                pth = ks[:r.randint(0, len(ks) - 1)] + abc_path(g, 1, 2)
+            if not prefix_related(pth, ks):
+                break
+        else:
+            pth = [ustr('zz')]
+        pp = ", ".join(S(x) for x in pth)
+        ex = [f"map-get({S(m)}, {pp})", f"map-get({setx}, {pp})"]
+        return name, ex, lambda vs: "blt law set_other_path 2 " + " ".join(map(enc, vs)), None
     # map laws
     a, b = simple_map(g), simple_map(g)
     keys = [k for k, _ in a[1]] + [k for k, _ in b[1]] + [g.key_atom()]
@@ -1741,10 +1879,10 @@ def run_laws(ck, pool, n):
     return failing
 
 
-SIZES = {"quick": (5000, 1500, 1500), "thorough": (100000, 25000, 30000)}
+SIZES = {"quick": (5000, 2000, 1500, 1200), "thorough": (100000, 30000, 30000, 20000)}
 
 
-def gen_cases(ck, n, n_nested=0):
+def gen_cases(ck, n, n_nested=0, n_abc=0):
     g = Gen(ck.rng)
     cases = list(CORPUS)
     per = max(1, n // len(FUNCS))
@@ -1753,6 +1891,8 @@ def gen_cases(ck, n, n_nested=0):
             cases.append(gen_call(g, f))
     for _ in range(n_nested):
         cases.append(gen_nested(g))
+    for _ in range(n_abc):
+        cases.append(gen_abc(g))
     return cases
 
 
@@ -1763,6 +1903,9 @@ def run(tier, seed):
                       "length 0-6 over space/comma/slash/undecided x bracketed, scalars, maps and argument lists in list "
                       "position, indices -8..8, near-integers, fractions, with units, wrongly typed, missing and extra arguments; "
                       "nested maps with key paths mostly along existing entries; strings over ASCII, é, e+U+0301, 中, U+1F600. "
+                      "Map values include null, false, (), the empty map, 0 and \"\" at every level; a second family of map calls "
+                      "(set/get/has-key/merge with key paths of length 1-4, deep-merge, deep-remove) runs over maps whose keys a/b/c "
+                      "recur at every level. Argument lists carry comma, space or slash (spread of a list). "
                       "Nested calls (join/append/zip/set-nth results fed into join/append/zip/set-nth/nth/index/length/"
                       "list-separator/is-bracketed, depth <= 4, single values and empty/one-element lists as frequent as proper "
                       "lists): every intermediate and final result is a probe. Every probe is observed under its global name and "
@@ -1783,9 +1926,9 @@ def run(tier, seed):
         ck.unproved("correspondence-broken", {"why": "runner does not build against /repo", "error": getattr(ck, "build_error", "")})
         return ck.finish()
     pool = RunnerPool()
-    n_calls, n_laws, n_nested = SIZES[tier]
+    n_calls, n_laws, n_nested, n_abc = SIZES[tier]
     t2 = time.time()
-    cases = gen_cases(ck, n_calls, n_nested)
+    cases = gen_cases(ck, n_calls, n_nested, n_abc)
     failing = evaluate(ck, pool, cases)
     t3 = time.time()
     failing += run_laws(ck, pool, n_laws)
@@ -1795,7 +1938,7 @@ def run(tier, seed):
     unknown = [f for f in failing if not f["tags"]]
     if (not ck.proof["ok"] or ck.cov["model_disagreements"]) and not unknown and tier == "quick":
         log("[C14] proof or correspondence broken: enlarging the search")
-        extra = gen_cases(ck, 25000, 6000)[len(CORPUS):]
+        extra = gen_cases(ck, 25000, 6000, 6000)[len(CORPUS):]
         failing += evaluate(ck, pool, extra, direct_only=True)
         failing += run_laws(ck, pool, 8000)
     failing.sort(key=lambda f: (bool(f["tags"]), len(f["call"])))
